@@ -1663,9 +1663,13 @@ Qed.
 
 (** the message descriptor as the renderers read it: ID, SenderNode, Name and the signals as [sig_of_r] *)
 Definition msg_of_r (m : message) : Translated.Message :=
-  Translated.set_Message_Signals
-    (Translated.set_Message_Name (Translated.set_Message_SenderNode (msg_of m) (msg_sender m)) (msg_name m))
-    (map sig_of_r (msg_signals m)).
+  Translated.set_Message_DelayTime
+    (Translated.set_Message_CycleTime
+       (Translated.set_Message_Signals
+          (Translated.set_Message_Name (Translated.set_Message_SenderNode (msg_of m) (msg_sender m)) (msg_name m))
+          (map sig_of_r (msg_signals m)))
+       (msg_cycle_time m))
+    (msg_delay_time m).
 
 Lemma T_AppendID_eq buf m : in_u 32 (msg_id m) ->
   Translated.AppendID buf (msg_of_r m) = buf ++ rnd (append_id m).
@@ -1756,6 +1760,20 @@ Proof.
   rewrite (compact_range _ (length (msg_signals m)) Hd (msg_signals m) Hs 0%nat) by reflexivity.
   rewrite !rnd_app. unfold go_append. cbn [render flat_map render_segment bytes_make Z.to_nat repeat app].
   rewrite ?app_nil_r, <- ?app_assoc. reflexivity.
+Qed.
+
+(** time.Duration.String() is the oracle [rD] (nanoseconds -> text), as in the hand model's [GoDuration] segment *)
+Lemma T_AppendCycleTime_eq buf m :
+  Translated.AppendCycleTime rD buf (msg_of_r m) = buf ++ rnd (append_attr t_cycle_time (GoDuration (msg_cycle_time m))).
+Proof.
+  unfold Translated.AppendCycleTime, Translated.appendAttributeString, append_attr, go_append.
+  cbn [render flat_map render_segment app]. rewrite ?app_nil_r, <- ?app_assoc. reflexivity.
+Qed.
+Lemma T_AppendDelayTime_eq buf m :
+  Translated.AppendDelayTime rD buf (msg_of_r m) = buf ++ rnd (append_attr t_delay_time (GoDuration (msg_delay_time m))).
+Proof.
+  unfold Translated.AppendDelayTime, Translated.appendAttributeString, append_attr, go_append.
+  cbn [render flat_map render_segment app]. rewrite ?app_nil_r, <- ?app_assoc. reflexivity.
 Qed.
 
 Lemma T_MessageString_eq f m : valid_data (Translated.Frame_Data f) -> sigs_ok m ->
